@@ -56,6 +56,7 @@ package main
 import (
 	"bytes"
 	"fmt"
+	"io"
 	"strings"
 	"time"
 
@@ -234,7 +235,13 @@ func run(c *mc.Ctx, f cm.File, data []byte, desc, faultAt string) mc.Verdict {
 		return v
 	}
 
-	d, err := postscript.ReadCMap(bytes.NewReader(data))
+	// a pure function of the file decides how it arrives: all at once from a
+	// bytes.Reader, or with the final bytes delivered together with io.EOF
+	var src io.Reader = bytes.NewReader(data)
+	if len(data)%2 == 1 {
+		src = &dataWithEOF{data: data}
+	}
+	d, err := postscript.ReadCMap(src)
 	c.Step()
 
 	if err != nil && d != nil {
@@ -605,6 +612,71 @@ func sortBody(c *mc.Ctx, item int) mc.Verdict {
 	return run(c, f, data, fmt.Sprintf("one %v block with source codes %s in this file order", kind, strings.Join(desc, " ")), "")
 }
 
+// dataWithEOF delivers as much as fits and reports io.EOF together with the last bytes.
+type dataWithEOF struct {
+	data []byte
+	pos  int
+}
+
+func (r *dataWithEOF) Read(p []byte) (int, error) {
+	n := copy(p, r.data[r.pos:])
+	r.pos += n
+	if r.pos == len(r.data) {
+		return n, io.EOF
+	}
+	return n, nil
+}
+
+// largeBody: files of the size of real CJK CMaps and beyond: nb full blocks of
+// 100 entries each, of one kind or of all kinds in rotation, with four-byte
+// source codes in descending file order (so that sorting has work to do).
+var largeKinds = []string{"cidrange", "cidchar", "bfchar", "bfrange", "notdefrange", "all kinds in rotation"}
+
+func largeBody(sizes []int) func(c *mc.Ctx, item int) mc.Verdict {
+	return func(c *mc.Ctx, item int) mc.Verdict {
+		nb := sizes[item%len(sizes)]
+		ki := item / len(sizes)
+		m := baseCMap(0)
+		m.Blocks = append(m.Blocks, cm.Block{Kind: cm.CodeSpaceRange, Declared: -1, Entries: []cm.Entry{{Lo: cm.Str(0, 0, 0, 0), Hi: cm.Str(0xff, 0xff, 0xff, 0xff)}}})
+		kinds := []cm.Kind{cm.CidRange, cm.CidChar, cm.BfChar, cm.BfRange, cm.NotdefRange}
+		next := uint32(nb*100*4 + 16)
+		for b := 0; b < nb; b++ {
+			kind := kinds[b%len(kinds)]
+			if ki < len(kinds) {
+				kind = kinds[ki]
+			}
+			blk := cm.Block{Kind: kind, Declared: -1}
+			for e := 0; e < 100; e++ {
+				next -= 4
+				lo := cm.Str(byte(next>>24), byte(next>>16), byte(next>>8), byte(next))
+				en := cm.Entry{Lo: lo}
+				if kind.HasBounds() {
+					hi := next + 2
+					en.Hi = cm.Str(byte(hi>>24), byte(hi>>16), byte(hi>>8), byte(hi))
+				}
+				switch kind {
+				case cm.BfChar, cm.BfRange:
+					en.Dst = cm.Str(byte(next>>8), byte(next))
+				default:
+					en.Dst = cm.Int(int(next % 60000))
+				}
+				blk.Entries = append(blk.Entries, en)
+			}
+			m.Blocks = append(m.Blocks, blk)
+		}
+		f := cm.File{CMaps: []cm.CMap{m}}
+		data := cm.Write(f, cm.Layout{})
+		v := run(c, f, data, fmt.Sprintf("%d full blocks of 100 entries, %s", nb, largeKinds[ki]), "")
+		if len(v.Render) > 400 {
+			v.Render = v.Render[:400] + "…"
+		}
+		if len(v.Detail) > 1500 {
+			v.Detail = v.Detail[:1500] + "…"
+		}
+		return v
+	}
+}
+
 func describeSeq(alpha []letter) func(int) string {
 	return func(item int) string {
 		ids := decodeSeq(item, len(alpha))
@@ -787,6 +859,19 @@ func main() {
 				Budget:   budget,
 				Rule:     fmt.Sprintf("item = (kind of 7, ordered pair or triple of distinct source codes from %x written in that file order): a code and the same code followed by 1..3 zero bytes, their byte-wise neighbours, codes of every length; the table must come back sorted by source code (code-space ranges by length, then code); non-trivial = distinct codes", sortCodes),
 				CrashKey: func(int) string { return "C07:crash:sort-order" },
+			})
+			largeSizes := []int{1, 30, 300, 1000}
+			if tier == "thorough" {
+				largeSizes = append(largeSizes, 2500)
+			}
+			fams = append(fams, mc.Family{
+				Name:     "large-cmaps",
+				Items:    len(largeSizes) * len(largeKinds),
+				Body:     largeBody(largeSizes),
+				Budget:   budget,
+				Rule:     fmt.Sprintf("item = (number of full 100-entry blocks in %v) x (kind: %v): one CMap with a four-byte code space and that many blocks, source codes in descending file order; every entry must come back, sorted; non-trivial = all", largeSizes, largeKinds),
+				Describe: func(i int) string { return fmt.Sprintf("%d blocks, %s", largeSizes[i%len(largeSizes)], largeKinds[i/len(largeSizes)]) },
+				CrashKey: func(int) string { return "C07:crash:large-cmaps" },
 			})
 			return fams
 		},
